@@ -170,6 +170,21 @@ def generic(name, mk, vios, stats, deterministic=True, batches=(1, 3)):
       if not close(x, y):
         V('batch-dependence', 'metrics at %r differ between batch sizes: %s vs %s' % (p, x, y))
         break
+  # parameters are named: the order in which a trial's parameter dict was filled must not matter
+  if deterministic:
+    for oname, f in (('reversed', lambda p: dict(reversed(list(p.items())))), ('name-sorted', lambda p: dict(sorted(p.items())))):
+      if all(list(f(p)) == list(p) for p in pts):
+        continue
+      try:
+        r = evaluate(e, [f(p) for p in pts], batches[0])
+      except Exception as exn:  # pylint: disable=broad-except
+        V('evaluate-raises', 'evaluate raises %r on a grid point whose parameters are given in %s order' % (exn, oname))
+        break
+      stats['evaluations'] += len(r)
+      for p, x, (t, _) in zip(pts, res[batches[0]], r):
+        if not close(x, metrics_of(t)):
+          V('parameter-order-dependence', 'metrics at %r differ when the same parameters are given in %s order: %s vs %s' % (p, oname, x, metrics_of(t)))
+          break
   stats['nontrivial'] += 1
   return e, ps, pts, res[batches[0]]
 
